@@ -139,6 +139,19 @@ pub fn make_font(f: &FontD) -> BitFont {
             return font;
         }
     }
+    if f.height > 0 && f.data.len() > 256 * f.height as usize && f.data.len() % f.height as usize == 0 {
+        // more than 256 glyphs: built through PSF2 (the only constructor that takes a glyph count)
+        let n = (f.data.len() / f.height as usize) as u32;
+        let mut psf2 = vec![0x72, 0xb5, 0x4a, 0x86];
+        for v in [0u32, 32, 0, n, f.height as u32, f.height as u32, 8] {
+            psf2.extend(v.to_le_bytes());
+        }
+        psf2.extend_from_slice(&f.data);
+        if let Ok(mut font) = BitFont::from_bytes(f.name.clone(), &psf2) {
+            font.name = f.name.clone();
+            return font;
+        }
+    }
     let mut font = BitFont::create_8(f.name.clone(), 8, f.height, &f.data);
     font.name = f.name.clone();
     font
